@@ -15,7 +15,7 @@ RULE = ('fields NY 1..4 x NX 2..7; "exact" stream: integer grids times 2^ue (bin
         'so 2..5 x 2..5 grids do not exist in this format; padding 0..a few bytes, or >= 108 in the bigpad stream), blank or NUL padding, written by a Python '
         'reference encoder (compared byte for byte with the Coq encoder, decoded by the Coq decoder) and read by arlpackedbit: variable list, level list, times '
         'and every unpacked field compared exactly with the Coq model of the reader and with the ideal view of the content; separate streams: two columns / two rows, '
-        'thin large grids (file-large: NX or NY 1000..3100 with the other 2..4, thousands in the grid-id letters; both >= 1000 would need files of megabytes and is not generated), '
+        'thin large grids (file-large / write-large: NX or NY 1000..3100 with the other 2..4, thousands in the grid-id letters, for the reader and for the writer; both >= 1000 would need files of megabytes and is not generated), '
         'key shared by surface and upper level (region 6), writearlpackedbit on an in-memory file (output compared byte for byte with the Gallina writer and decoded by the reference decoder). '
         'foreign-* (8%): fields packed by a reference packer with the ORIGINAL exponent rule (largest difference up to 128 quanta, codes may wrap), decoded by the library unpack only. '
         'Corpus: the witnesses of the five repaired defects.')
@@ -124,8 +124,6 @@ def impl(case):
         return impl_foreign(case)
     if case['kind'].startswith('file-'):
         return impl_file(case)
-    if case['kind'] == 'write-large':
-        return impl_write_large(case)
     if case['kind'].startswith('write'):
         return impl_write(case)
     import numpy as np
@@ -168,8 +166,6 @@ def coq_term(case, obs):
         return coq_term_foreign(case, obs)
     if case['kind'].startswith('file-'):
         return coq_term_file(case, obs)
-    if case['kind'] == 'write-large':
-        return None
     if case['kind'].startswith('write'):
         return coq_term_write(case, obs)
     ev = _exact_view(case, obs)
@@ -242,7 +238,7 @@ LEVEL_TEXT = ('Theorems (Props/C20.v, all closed under the global context), desc
               'C20_decoder_mirrors_encoder; decoding of fields packed by other tools with any exponent is the packer\'s running value whenever no code wrapped '
               '(C20_foreign_decode; why the original rule was insufficient: C20_original_rule_overflows, C20_exponent_covers). File layer (Model/ArlFile.v): '
               'full strength: reference decoder inverts reference encoder (C20_file_dec_enc); record offsets (C20_file_record_at_offset, C20_file_lib_offset); table parser '
-              '(C20_file_readvardef); times (C20_file_times); writer: for every in-memory file the output decodes to its content, the reader model returns the ideal view and every '
+              '(C20_file_readvardef); times (C20_file_times); grid sizes up to 26999 with the thousands letters of the grid id (C20_file_grid_size_roundtrip; enc/dec/impl_read/impl_write all use it); writer (since 6a4afc6, 8d118b4): for every in-memory file the output decodes to its content, the reader model returns the ideal view and every '
               'field comes back within half a quantum (C20_file_write_read); tie T over Gen/Arl.v (C20_gen_sizes, C20_gen_label_fields, C20_gen_lenh, C20_gen_record_length, '
               'C20_gen_table_widths, C20_gen_bump). _partial: reader model = ideal view for every well-formed uniform content with >= 2x2 cells and no key shared between surface '
               'and upper levels (C20_file_reader_partial); fields of a foreign spec-encoded file within one quantum when RMAX <= 127 q (C20_file_field_bound_partial). '
@@ -307,6 +303,8 @@ def gen_file(rng, tier):
     if kind in ('file-large', 'write-large'):
         # 1000 or more points in one direction: thousands go into the grid-id letters, NX/NY fields hold the rest
         nx, ny = rng.choice([1000, 1001, 1003, 1999, 2000, 2005, 3100, rng.randint(1000, 3100)]), rng.choice([2, 2, 2, 3, 4])
+        if kind == 'write-large':
+            nx, ny = rng.choice([1000, 1001, 1003, 1999, 2005]), 2
         if rng.random() < 0.5:
             nx, ny = ny, nx
     elif kind == 'file-narrow':
@@ -331,16 +329,18 @@ def gen_file(rng, tier):
             fl = []
             for k in l['keys']:
                 style = rng.choice(['walk', 'walk', 'walk', 'const', 'spiky'])
+                # a different magnitude per record: the exponents of one variable differ from time to time
+                Df = D if kind in ('file-large', 'write-large') else rng.choice([1, 3, 50, 1000])
                 v0 = rng.randint(-20000, 20000)
                 rows = []
                 for j in range(ny):
-                    cur = (rows[-1][0] if rows else v0) + (rng.randint(-D, D) if style != 'const' else 0)
+                    cur = (rows[-1][0] if rows else v0) + (rng.randint(-Df, Df) if style != 'const' else 0)
                     row = [cur]
                     for i in range(nx - 1):
                         if style == 'walk':
-                            cur += rng.randint(-D, D)
+                            cur += rng.randint(-Df, Df)
                         elif style == 'spiky':
-                            cur += rng.choice([0, 0, D, -D])
+                            cur += rng.choice([0, 0, Df, -Df])
                         row.append(cur)
                     rows.append(row)
                 if kind == 'write':
@@ -643,8 +643,6 @@ def coq_term_write(case, obs):
 
 
 def file_region(case):
-    if case['kind'] == 'write-large':
-        return 7
     if case['nx'] < 2 or case['ny'] < 2:
         return 5
     if set(case['levels'][0]['keys']) & set(k for l in case['levels'][1:] for k in l['keys']):
@@ -652,54 +650,7 @@ def file_region(case):
     return 0
 
 
-def impl_write_large(case):
-    """writer on a grid with >= 1000 points in a direction: write, then read the file back with arlpackedbit"""
-    import os, shutil, tempfile
-    import numpy as np
-    o = impl_write(dict(case, kind='write'))
-    data = bytes(o['bytes'])
-    d = tempfile.mkdtemp(dir=os.path.join(C.VERIF, '.work'))
-    try:
-        path = os.path.join(d, 'w.arl')
-        with open(path, 'wb') as fh:
-            fh.write(data)
-        res = dict(hdr_nx=data[143:146].decode('latin1'), hdr_ny=data[146:149].decode('latin1'), grid=data[12:14].decode('latin1'), size=len(data))
-        try:
-            from PseudoNetCDF.noaafiles._arl import arlpackedbit
-            f = arlpackedbit(path)
-            res['readback'] = dict(nx=len(f.dimensions['x']), ny=len(f.dimensions['y']))
-            worst = 0.0
-            for li, l in enumerate(case['levels']):
-                for vi, k in enumerate(l['keys']):
-                    a = np.asarray(f.variables[k])
-                    x = np.array(case['fields'][0][li][vi], dtype='d')
-                    got = (a[0] if li == 0 else a[0, li - 1]).astype('d')
-                    rmax = max(_int_rmax(case['fields'][0][li][vi]), 1)
-                    q = 2.0 ** (_nexp_rel(rmax, True) - 7)
-                    worst = max(worst, float(np.abs(got - x).max()) / q)
-            res['max_err_quanta'] = worst
-            del f
-        except Exception as e:
-            res['readback'] = 'raises %s: %s' % (type(e).__name__, str(e)[:100])
-        return res
-    finally:
-        shutil.rmtree(d, ignore_errors=True)
-
-
 def py_check_file(case, obs):
-    if case['kind'] == 'write-large':
-        # no Gallina writer for these sizes (wf_winput: NX, NY <= 999): judged by the read-back only
-        why = []
-        if 'raises' in obs:
-            why.append('writearlpackedbit raised %s' % obs.get('raises'))
-        else:
-            if obs['hdr_nx'] != '%3d' % (case['nx'] % 1000) or obs['hdr_ny'] != '%3d' % (case['ny'] % 1000):
-                why.append('header NX/NY fields %r %r are not the sizes modulo 1000' % (obs['hdr_nx'], obs['hdr_ny']))
-            if not isinstance(obs['readback'], dict):
-                why.append('file written for a %dx%d grid cannot be read back: %s' % (case['nx'], case['ny'], obs['readback']))
-            elif (obs['readback']['nx'], obs['readback']['ny']) != (case['nx'], case['ny']) or obs.get('max_err_quanta', 9) > 0.5:
-                why.append('read back %r, error %s quanta' % (obs['readback'], obs.get('max_err_quanta')))
-        return dict(s_ok=not why, region=7, why='; '.join(why))
     """region of the case (mirror of Corr.C20.region_file) and exact-representability of what was read;
     the S and F verdicts of file cases come from Coq"""
     region = file_region(case)
